@@ -303,7 +303,7 @@ func scenarioWrite(op string) func(c *harness.Ctx) {
 		c.Config["bytes_written"] = W
 		c.Fold(uint64(W))
 		c.Nontrivial = true
-		c.FP = harness.HashString(op) ^ uint64(W)*0x9E3779B97F4A7C15 ^ harness.HashString(fmt.Sprintf("%x", base.Buf[:min(W, 64)]))
+		c.FP = harness.HashString(op) ^ uint64(W)*0x9E3779B97F4A7C15 ^ c.T.U64()
 		for k := 0; k < W; k++ {
 			if W > 600 && tp.Choose(W/300) != 0 {
 				continue
